@@ -130,6 +130,7 @@ def runSig (b : Block) : Res :=
     match specLabels ins, specLabels outsE with
     | some si, some so =>
       if impl ≠ "ok" then some s!"valid_signature_rejected_{impl}"
+      else if ((field b "relook").getD []).headD "same" ≠ "same" then some "a_second_look_at_the_value_sets_differs_after_the_caller_changed_the_list_it_was_handed"
       else if iv ≠ si then some s!"inputs={showLabels iv}_expected={showLabels si}"
       else if ov ≠ so then some s!"outputs={showLabels ov}_expected={showLabels so}"
       else none
